@@ -15,7 +15,7 @@
                              above from the parent's whitespace for a child line;
      wrap_phase_wsd:         the same for the log of a whole phase. *)
 From PasfmtVerif Require Import Model.WrapSearch Model.WrapFormat Proofs.WrapSearchProofs Proofs.WrapSearchDeepProofs Proofs.WrapDepthProofs
-  Proofs.WrapEventsProofs Proofs.WrapKidsProofs Proofs.WrapSimProofs Proofs.FormatEofProofs Proofs.WrapLevelsProofs.
+  Proofs.WrapEventsProofs Proofs.WrapKidsProofs Proofs.WrapSimProofs Proofs.FormatEofProofs Proofs.WrapLevelsProofs Proofs.WrapNoBreakProofs.
 From Coq Require Import Lia.
 
 (* ------------------------------------------------------------------ *)
@@ -384,5 +384,124 @@ Proof.
   exists k, lv. split; [exact Hk|]. split; [exact Hh|exact Hw].
 Qed.
 
+
+(* ------------------------------------------------------------------ *)
+(* what the FirstDecision of format_line gives: a solved top-level line starts with the event
+     Ev_D g None ..            (Continue)   when g is token 0 (FirstDecision::Continue {0, can_break: true}) or the token's
+                                            invariant is MustNotBreak (token 0, an inline comment ...),
+     Ev_D g (Some (true, level, 0)) ..      otherwise *)
+Lemma format_top_calls W lvs fm depth st lv :
+  format_top W lvs fm depth st lv =
+  if lv_type lv IS LLT_AsmInstruction then st
+  else let (st1, r) := solve W lvs fm depth st lv (lv_level lv, 0) (top_first lv) in
+       match r with Some s => fold_left (fun st e => sst_log e st) (recon_events lvs s (lv_gtoks lv)) st1 | None => st1 end.
+Proof. reflexivity. Qed.
+
+Theorem top_line_first_event W lvs fm depth st lv g gs r rs st1 s :
+  lv_gtoks lv = g :: gs -> lv_recs lv = r :: rs ->
+  solve W lvs fm depth st lv (lv_level lv, 0) (top_first lv) = (st1, Some s) ->
+  exists lll rest,
+    recon_events lvs s (lv_gtoks lv) =
+    Ev_D g (if (g =? 0) || (tr_inv r IS Some DR_MustNotBreak) then None else Some (true, lv_level lv, 0)) lll true :: rest.
+Proof.
+  intros Hg Hr E. pose proof (solve_ok W lvs fm depth st lv _ _ st1 s E) as Hok. pose proof (solve_ws W lvs fm depth st lv _ _ st1 s E) as Hws.
+  rewrite Hr in Hok. destruct Hok as (_ & post & Hp). destruct s as [ind cont decs p l]. cbn [sol_ws sol_decs] in *. injection Hws as -> ->.
+  rewrite recon_events_eq, Hg. destruct decs as [|t ds]; [discriminate|]. cbn [map] in Hp. injection Hp as Hp _. cbn [recon_go].
+  exists (td_lll t). eexists. f_equal. rewrite Hp. unfold top_first. rewrite Hg. unfold first_dec, bid.
+  destruct (g =? 0); cbn [orb]; [reflexivity|]. destruct (tr_inv r) as [[]|]; reflexivity.
+Qed.
+
+(* ------------------------------------------------------------------ *)
+(* non-vacuity: the implementation's trace (tools/trace2coq.py kid kid.pas 30,0,1,0,2,2,0) of
+     begin
+       Foo(procedure
+         begin
+           X := 1;
+         end);
+     end.
+   at max_line_length 30: line 1 (`Foo(...);`, level 1) is a top-level line, line 2 (`X := 1;`, level 1) is a child line of
+   token 4 (`begin`); the implementation logs  WD 1 B 1 1 0  and  WD 5 B 1 2 1. *)
+From PasfmtVerif Require Import Proofs.WrapTwoPhaseProofs.
+Definition kid_l : list ftoken :=
+  [(mkToken [] [98; 101; 103; 105; 110] (TT_Keyword KK_Begin), mkFmt false 0 0 0 0);
+   (mkToken [] [70; 111; 111] TT_Identifier, mkFmt false 1 0 0 1);
+   (mkToken [] [40] (TT_Op OK_LParen), mkFmt false 0 0 0 0);
+   (mkToken [] [112; 114; 111; 99; 101; 100; 117; 114; 101] (TT_Keyword KK_Procedure), mkFmt false 0 0 0 0);
+   (mkToken [] [98; 101; 103; 105; 110] (TT_Keyword KK_Begin), mkFmt false 1 0 0 1);
+   (mkToken [] [88] TT_Identifier, mkFmt false 1 0 0 1);
+   (mkToken [] [58; 61] (TT_Op OK_Assign), mkFmt false 0 0 0 1);
+   (mkToken [] [49] (TT_NumberLiteral NK_Decimal), mkFmt false 0 0 0 1);
+   (mkToken [] [59] (TT_Op OK_Semicolon), mkFmt false 0 0 0 0);
+   (mkToken [] [101; 110; 100] (TT_Keyword KK_End), mkFmt false 1 0 0 1);
+   (mkToken [] [41] (TT_Op OK_RParen), mkFmt false 0 0 0 0);
+   (mkToken [] [59] (TT_Op OK_Semicolon), mkFmt false 0 0 0 0);
+   (mkToken [] [101; 110; 100] (TT_Keyword KK_End), mkFmt false 1 0 0 1);
+   (mkToken [] [46] (TT_Op OK_Dot), mkFmt false 0 0 0 0);
+   (mkToken [] [] TT_Eof, mkFmt false 1 0 0 0)].
+
+Definition kid_lines : list lline :=
+  [mkLine LLT_Unknown 0 None [0]%nat;
+   mkLine LLT_Unknown 1 None [1; 2; 3; 4; 9; 10; 11]%nat;
+   mkLine LLT_Assignment 1 (Some (1, 4)%nat) [5; 6; 7; 8]%nat;
+   mkLine LLT_Unknown 0 None [12; 13]%nat;
+   mkLine LLT_Eof 0 None [14]%nat].
+Definition kid_W : wsettings := mkWS 30 20000 false 2 4.
+
+Example kid_model_final :
+  map (fun p : ftoken => (f_nl (snd p), f_ind (snd p), f_cont (snd p), f_sp (snd p))) (fst (fst (olf_model ml2_rsA kid_W false kid_lines kid_l))) =
+  [(0, 0, 0, 0); (1, 1, 0, 0); (0, 0, 0, 0); (1, 1, 1, 0); (1, 1, 1, 0); (1, 2, 1, 0); (0, 0, 0, 1); (0, 0, 0, 1); (0, 0, 0, 0); (1, 1, 1, 0);
+   (1, 1, 0, 0); (0, 0, 0, 0); (1, 0, 0, 0); (0, 0, 0, 0); (1, 0, 0, 0)].
+Proof. vm_compute. reflexivity. Qed.
+
+Lemma kid_starts_top_1 : starts_top kid_lines 1 1.
+Proof.
+  intros k ln Hk Hh. do 5 (destruct k as [|k]; [injection Hk as <-; cbn in Hh; try discriminate; repeat split; discriminate|]). destruct k; discriminate.
+Qed.
+
+(* the top-level line 1: its first token (token 1) is at level 1, no continuation — by the theorem, both settings of format_multiline_strings *)
+Example kid_top_line fms tok f :
+  nth_error (fst (fst (olf_model ml2_rsA kid_W fms kid_lines kid_l))) 1 = Some (tok, f) ->
+  f_ind f = 1 /\ f_cont f = 0 /\ f_sp f = 0 /\ 1 <= f_nl f <= 2.
+Proof.
+  intros H. apply (olf_line_starts ml2_rsA kid_W fms kid_lines kid_l 1 tok f [] 1 0 1 H); [|exact kid_starts_top_1].
+  destruct fms; vm_compute; reflexivity.
+Qed.
+
+(* the child line 2: its first token (token 5) is at the whitespace of BreakAll(child_starting_ws) under the parent's (1, 0):
+   (1 + level 1 - 0, 0 + 1 continuation of the parent token) = (2, 1) *)
+Example kid_child_line tok f :
+  nth_error (fst (fst (olf_model ml2_rsA kid_W false kid_lines kid_l))) 5 = Some (tok, f) ->
+  f_ind f = 2 /\ f_cont f = 1 /\ f_sp f = 0 /\ 1 <= f_nl f <= 2
+  /\ exists k lv, nth_error (mk_lviews (map tokinfo_of kid_l) kid_lines) k = Some lv /\ hd_error (lv_gtoks lv) = Some 5
+                  /\ line_ws (mk_lviews (map tokinfo_of kid_l) kid_lines) lv (2, 1).
+Proof.
+  intros H. apply (olf_phase1_any_line_start ml2_rsA kid_W kid_lines kid_l 5 tok f [] 2 1 H). vm_compute. reflexivity.
+Qed.
+
+Example kid_child_option : option_ws (1, 0) 1 (CO_BreakAll 1 1 0)
+  /\ match nth_error (mk_lviews (map tokinfo_of kid_l) kid_lines) 2 with Some lv => opt_ws (CO_BreakAll 1 1 0) lv = (2, 1) | None => False end.
+Proof. split; [right; left; reflexivity|vm_compute; reflexivity]. Qed.
+
+(* both phases with a reflow: WrapTwoPhaseProofs.ml2 (a multi-line string is re-indented, line 1 is reflowed by phase 2);
+   token 1 is decided twice, both times with the break (level 1, 0) *)
+Lemma ml2_starts_top_1 : starts_top ml2_lines 1 1.
+Proof.
+  intros k ln Hk Hh. do 5 (destruct k as [|k]; [injection Hk as <-; cbn in Hh; try discriminate; repeat split; discriminate|]). destruct k; discriminate.
+Qed.
+
+Example ml2_reflowed_line tok f :
+  nth_error (fst (fst (olf_model ml2_rsA ml2_WA true ml2_lines ml2_l))) 1 = Some (tok, f) ->
+  f_ind f = 1 /\ f_cont f = 0 /\ f_sp f = 0 /\ 1 <= f_nl f <= 2.
+Proof.
+  intros H. apply (olf_line_starts ml2_rsA ml2_WA true ml2_lines ml2_l 1 tok f [DBreak true 1 0] 1 0 1 H); [|exact ml2_starts_top_1].
+  vm_compute. reflexivity.
+Qed.
+
+Example ml2_token1_exists : nth_error (fst (fst (olf_model ml2_rsA ml2_WA true ml2_lines ml2_l))) 1 <> None
+  /\ nth_error (fst (fst (olf_model ml2_rsA kid_W false kid_lines kid_l))) 5 <> None.
+Proof. split; vm_compute; discriminate. Qed.
+
 Print Assumptions solve_wsd.
 Print Assumptions olf_phase1_any_line_start.
+Print Assumptions top_line_first_event.
+Print Assumptions kid_child_line.
